@@ -138,6 +138,17 @@ CHECKS = {
               'finished tree / stats are compared with an independently built trie and counted values.'),
         design_ref='DESIGN.md section 5 C16',
         note='Trusted: identity of node objects as the notion of "same node"; timing fields of stats are not judged.'),
+    'C17': dict(
+        category='exploration',
+        technique='Hypothesis-generated limits and operation sequences checked against a reference lifecycle model (model-based testing), harness-owned fake clock for time limits',
+        text=('For random proofs the natural length n is measured under a fixed tie-break schedule, then step limits 1..n+1 (all of '
+              'them in the thorough tier), None / 0 / negative, and time limits under a fake clock are applied; independently, random '
+              'sequences of step / finish / build / setter / rule-mutation calls are executed and every observable (flags, verdicts, '
+              'history length, snapshots of finished tableaux, raised error types) is compared with a small reference model of the '
+              'lifecycle after every call.'),
+        design_ref='DESIGN.md section 5 C17',
+        note=('"Started" is read as the library documents it (trunk built or a rule applied). Real-time behaviour of build_timeout is '
+              'replaced by a deterministic clock, so only the logic of the limit is judged.')),
 }
 
 NOT_YET = 'check not built yet in this session (planned, see DESIGN.md section 5); no claim is made'
